@@ -648,6 +648,7 @@ func firstDiff(a, b string) string {
 // serialisation unchanged.
 func TestDupIndependent(t *testing.T) {
 	rapid.Check(t, func(t *rapid.T) {
+		freshSerial = 0 // fresh names are a function of the case, so that a failure replays exactly
 		g := genGraph(t, sizeCfg(t))
 		record(g, "dup")
 		b := build(g)
